@@ -138,10 +138,11 @@ Lemma step_bound_Q : forall c s e m,
 Proof.
   intros c s e m Hh Hnr. unfold armedQ.
   assert (Hq : forall p, (count (forged_for c m) (rxq (fst (rx_arp c s p))) <= count (forged_for c m) (rxq s))%nat).
-  { intros p. destruct (rx_arp_queue c s p) as [E|[Hp E]]; rewrite E; [lia|].
-    rewrite count_app. unfold forged_for at 2, spoof_reply. simpl.
-    destruct (psmac p =? m) eqn:Q; [|rewrite andb_false_r; simpl; lia].
-    assert (psmac p = m) by lia. subst. congruence. }
+  { intros p. destruct (rx_arp_queue c s p) as [E|[[Hp E]|[Hnf E]]]; rewrite E; [lia| |].
+    - rewrite count_app. unfold forged_for at 2, spoof_reply. simpl.
+      destruct (psmac p =? m) eqn:Q; [|rewrite andb_false_r; simpl; lia].
+      assert (psmac p = m) by lia. subst. congruence.
+    - rewrite count_app. unfold forged_for at 2. rewrite Hnf. simpl. lia. }
   pose proof (step_rxq c s e) as G.
   destruct e as [a| |m0| |i|i|i|p|kr|et b|m1 o|kf|ip|dst ip|ip|dst ip|dst sn tg|dst sn tg| |j|j|ip n| ];
     try (rewrite G; lia).
